@@ -54,6 +54,11 @@ Swap(t, k, j) == /\ Idle(t) /\ k < j /\ slot[t][k] # slot[t][j]
                  /\ slot' = [slot EXCEPT ![t] = [@ EXCEPT ![k] = slot[t][j], ![j] = slot[t][k]]]
                  /\ nops' = [nops EXCEPT ![t] = @ + 1] /\ Log(t, "Swap", [k |-> k, j |-> j])
                  /\ UNCHANGED <<cnt, alive, mbox, lock, todo, nrel, nobt>>
+\* a temporary alias of slot k that switches reference counting on (or off) for the SAME item: SetRef(item, flag) with the item
+\* unchanged must adjust the count by exactly one; the temporary then dies
+Alias(t, k) == /\ Idle(t) /\ slot[t][k] # 0
+               /\ Begin(t, <<[k |-> "inc", o |-> slot[t][k]], [k |-> "dec", o |-> slot[t][k]]>>, "Alias", [k |-> k])
+               /\ UNCHANGED <<cnt, alive, slot, mbox, lock, nrel, nobt>>
 \* under the mailbox lock: mailbox := slot k   /   slot k := mailbox
 Publish(t, k) == /\ Idle(t) /\ lock = 0 /\ lock' = t
                  /\ Begin(t, SetRefSteps(<<0, 0>>, mbox, slot[t][k]) \o <<[k |-> "unlock"]>>, "Publish", [k |-> k])
@@ -88,7 +93,7 @@ Step(t) == /\ todo[t] # <<>>
            /\ UNCHANGED <<nops, nobt>>
 
 Next == \E t \in T : \/ Step(t)
-                     \/ \E k \in 1..K : New(t, k) \/ Reset(t, k) \/ Publish(t, k) \/ Take(t, k) \/ \E j \in 1..K : Copy(t, k, j) \/ Swap(t, k, j)
+                     \/ \E k \in 1..K : New(t, k) \/ Reset(t, k) \/ Alias(t, k) \/ Publish(t, k) \/ Take(t, k) \/ \E j \in 1..K : Copy(t, k, j) \/ Swap(t, k, j)
 Spec == Init /\ [][Next]_vars
 -------------------------------------------------------------------------------
 Refs(o) == Cardinality({<<t, k>> \in T \X (1..K) : slot[t][k] = o}) + (IF mbox = o THEN 1 ELSE 0)
